@@ -205,6 +205,7 @@ func c19(c *an.Check) {
 	sessionMsgWrappers(c)
 	signedMsgCore(c)
 	c.Note("not decided: that a message was submitted for delivery to this peer — the signed bytes contain neither the recipient nor the session epoch, so re-targeting by the relay cannot be excluded by any check on this code (DESIGN §4 C19)")
+	clientLockset(c)
 }
 
 // serverSession resolves the server's Session function and its handler closures by content.
@@ -418,7 +419,107 @@ func c20(c *an.Check) {
 	serverLockset(c)
 }
 
+// noLockLeak: no handler of the relay returns while still holding Server.mtx — a leaked lock stalls every other call of
+// the relay for good (all sends, acks and re-opens of every session).
+func noLockLeak(c *an.Check) {
+	p := c.P
+	mtx := fv(c, srvPkg, "Server", "mtx")
+	if mtx == nil {
+		c.Undecided("LOCKSET", "signaling server returns with its mutex released", nil, "unresolved anchor")
+		return
+	}
+	lockCall := func(i ssa.Instruction, name string) bool {
+		call, ok := i.(*ssa.Call)
+		if !ok {
+			return false
+		}
+		fo := an.CallObj(call.Common())
+		if fo == nil || fo.Name() != name || len(call.Call.Args) == 0 {
+			return false
+		}
+		f := an.FieldOfAddr(call.Call.Args[0])
+		return f != nil && f.Origin() == mtx
+	}
+	for _, name := range []string{"Listen", "Session"} {
+		fn := p.Func(srvPkg, "Server", name)
+		if fn == nil {
+			c.Undecided("LOCKSET", "signaling server "+name+" returns with its mutex released", nil, "unresolved anchor")
+			continue
+		}
+		for _, g := range an.WithClosures(fn) {
+			has := false
+			for _, b := range g.Blocks {
+				for _, ins := range b.Instrs {
+					if lockCall(ins, "Lock") {
+						has = true
+					}
+				}
+			}
+			if !has {
+				continue
+			}
+			// may-hold dataflow: bit 1 = "may be held", bit 2 = "may be released"; a deferred Unlock anywhere covers all returns
+			deferred := false
+			for _, b := range g.Blocks {
+				for _, ins := range b.Instrs {
+					if d, ok := ins.(*ssa.Defer); ok {
+						if fo := an.CallObj(&d.Call); fo != nil && fo.Name() == "Unlock" && len(d.Call.Args) > 0 {
+							if f := an.FieldOfAddr(d.Call.Args[0]); f != nil && f.Origin() == mtx {
+								deferred = true
+							}
+						}
+					}
+				}
+			}
+			out := map[*ssa.BasicBlock]int{}
+			in := map[*ssa.BasicBlock]int{}
+			in[g.Blocks[0]] = 2
+			changed := true
+			for changed {
+				changed = false
+				for _, b := range g.Blocks {
+					st := in[b]
+					for _, pr := range b.Preds {
+						st |= out[pr]
+					}
+					if st != in[b] {
+						in[b] = st
+						changed = true
+					}
+					for _, ins := range b.Instrs {
+						if lockCall(ins, "Lock") {
+							st = 1
+						}
+						if lockCall(ins, "Unlock") {
+							st = 2
+						}
+					}
+					if st != out[b] {
+						out[b] = st
+						changed = true
+					}
+				}
+			}
+			nRet, bad := 0, ""
+			for _, b := range g.Blocks {
+				ret, ok := b.Instrs[len(b.Instrs)-1].(*ssa.Return)
+				if !ok {
+					continue
+				}
+				nRet++
+				if out[b]&1 != 0 && !deferred {
+					bad = fmt.Sprintf("a return of %s at %s can be reached with Server.mtx still held (a Lock without a matching Unlock on that path): every other call of the relay blocks forever", an.FuncName(g), p.Pos(ret.Pos()))
+				}
+			}
+			c.Require(bad == "", "LOCKSET", "signaling server "+an.FuncName(g)+" returns with Server.mtx released", g, "", nRet, "no return is reachable with the mutex held", bad)
+		}
+	}
+}
+
 func serverLockset(c *an.Check) {
+	noLockLeak(c)
+	// the wire codec of the signaling RPCs is part of every property about what the relay and the clients tell each other
+	pbCodecSanity(c, func(rel string) bool { return rel == "signaling/rpc" })
 	p := c.P
 	guard := fv(c, srvPkg, "Server", "mtx")
 	var guarded []*types.Var
@@ -667,6 +768,9 @@ func clientEpochReset(c *an.Check) {
 }
 
 func clientLockset(c *an.Check) {
+	// a session handed out for SignalPeer(A) is A's: the directive's equivalence compares local peer, remote peer and
+	// signaling id like with like
+	equivCheck(c, func(f *ssa.Function) bool { return strings.Contains(an.FuncName(f), "signaling.signalPeer") })
 	p := c.P
 	guard := fv(c, cliPkg, "clientPeerTracker", "bcast")
 	var guarded []*types.Var
